@@ -32,6 +32,7 @@ type Input struct {
 	Allow    string     `json:"allow"`    // off | config | session
 	Finisher string     `json:"finisher"` // update updates_map updates_struct update_column update_columns delete
 	PK       int64      `json:"pk"`       // 0 = model value without primary key
+	QueryFirst bool     `json:"query_first"` // Count on the same handle before the write
 	Atoms    []whr.Atom `json:"atoms"`
 	Steps    []Step     `json:"steps"`
 }
@@ -122,7 +123,19 @@ func (e *env) run(in Input) Obs {
 			tx = tx.Scopes(func(d *gorm.DB) *gorm.DB { return d })
 		case "empty_slice":
 			tx = tx.Where([]int64{})
+		case "session_pu":
+			tx = tx.Session(&gorm.Session{PropagateUnscoped: true})
+		case "session_misc":
+			tx = tx.Session(&gorm.Session{SkipHooks: true, QueryFields: true, FullSaveAssociations: true})
+		case "session_plain":
+			tx = tx.Session(&gorm.Session{})
 		}
+	}
+	if in.QueryFirst {
+		// the same (non-Session) handle is first used for a read, then for the write
+		var n int64
+		tx = tx.Model(model0(in))
+		tx.Count(&n)
 	}
 	model := func() interface{} {
 		if in.Soft {
@@ -142,6 +155,13 @@ func (e *env) run(in Input) Obs {
 			res = tx.Model(model()).Updates(whr.TS{Mark: 7})
 		} else {
 			res = tx.Model(model()).Updates(whr.T{Mark: 7})
+		}
+	case "updates_struct_nomodel":
+		// the updating struct itself is the model value (zero primary key unless PK is set)
+		if in.Soft {
+			res = tx.Updates(&whr.TS{ID: in.PK, Mark: 7})
+		} else {
+			res = tx.Updates(&whr.T{ID: in.PK, Mark: 7})
 		}
 	case "update_column":
 		res = tx.Model(model()).UpdateColumn("mark", 7)
@@ -168,6 +188,13 @@ func (e *env) run(in Input) Obs {
 	}
 	o.Changed = dump(db, table) != before
 	return o
+}
+
+func model0(in Input) interface{} {
+	if in.Soft {
+		return &whr.TS{}
+	}
+	return &whr.T{}
 }
 
 func hasUnscoped(steps []Step) bool {
@@ -199,7 +226,7 @@ func term(in Input, o Obs) string {
 
 func shape(in Input) string {
 	var sb strings.Builder
-	fmt.Fprintf(&sb, "%v|%s|%s|%v|", in.Soft, in.Allow, in.Finisher, in.PK != 0)
+	fmt.Fprintf(&sb, "%v|%s|%s|%v|%v|", in.Soft, in.Allow, in.Finisher, in.PK != 0, in.QueryFirst)
 	for _, s := range in.Steps {
 		if s.Call != nil {
 			sb.WriteString(whr.Shape([]whr.Call{*s.Call}))
@@ -219,10 +246,11 @@ func alphabet() []Step {
 		emptyCall("where", "empty_string"), emptyCall("where", "empty_map"), emptyCall("where", "empty_struct"),
 		emptyCall("not", "empty_map"), emptyCall("not", "empty_string"), emptyCall("or", "empty_string"), emptyCall("or", "empty_struct"),
 		{Deco: "empty_slice"}, {Deco: "order"}, {Deco: "limit"}, {Deco: "unscoped"}, {Deco: "select"}, {Deco: "omit"}, {Deco: "table"}, {Deco: "scopes"},
+		{Deco: "session_pu"}, {Deco: "session_misc"}, {Deco: "session_plain"},
 	}
 }
 
-var finishers = []string{"update", "updates_map", "updates_struct", "update_column", "update_columns", "delete"}
+var finishers = []string{"update", "updates_map", "updates_struct", "updates_struct_nomodel", "update_column", "update_columns", "delete"}
 var allows = []string{"off", "config", "session"}
 
 func main() {
@@ -305,6 +333,12 @@ func main() {
 							continue
 						}
 						add("enum", Input{Soft: soft, Allow: al, Finisher: f, PK: pk, Steps: ch})
+						// read-then-write on one chain handle is documented misuse once a statement is
+						// actually built from it (the SELECT's FROM clause stays); it is generated only
+						// where the write must be rejected before anything is built
+						if len(ch) <= 1 && pk == 0 && al == "off" && f != "updates_struct_nomodel" {
+							add("enum", Input{Soft: soft, Allow: al, Finisher: f, PK: pk, Steps: ch, QueryFirst: true})
+						}
 					}
 				}
 			}
